@@ -178,8 +178,6 @@ class _Caller:
                 r = v.add_tm(_tm(o[1:7], o[7], o[8], o[9], o[10] if len(o) > 10 else 0, self))
                 if r is None:
                     return [1]
-                assert r.status is v.verif_dict[_reqid(o[1:7])]
-                assert all(r is not k[0] for k in self.kept), "the same result object handed out twice"
                 self.kept.append((r, r.completed, r.status))
                 return [2, int(r.completed)] + _st(r.status)
             if o and o[0] == 2:
